@@ -128,8 +128,8 @@ def r_namespace(c):
                     f"generated code refers to <array module>.{nm}, which the "
                     "installed NumPy does not export (numpy/__init__.pyi __all__): the "
                     "generated function fails with AttributeError when it runs")
-    if len(seen) < 40:
-        raise AnalysisError(f"only {len(seen)} emitted names found (floor 40)")
+    if len(seen) < 28:
+        raise AnalysisError(f"only {len(seen)} emitted names found (floor 28)")
 
 
 PY_OP = {"ADD": "Add", "SUB": "Sub", "MULT": "Mult", "TRUEDIV": "Div",
@@ -305,8 +305,8 @@ def r_consume(c):
                     s.where[2],
                     f"the handler never reads {short(k)}.{f}: two nodes differing only "
                     "there generate the same code (runs, but computes something else)")
-    if n < 20:
-        raise AnalysisError(f"only {n} field-consumption obligations (floor 20)")
+    if n < 14:
+        raise AnalysisError(f"only {n} field-consumption obligations (floor 14)")
 
 
 def r_args(c):
@@ -489,15 +489,15 @@ def r_creator_dtype(c):
                     "test that the dtype is the default float): the generated program "
                     "returns another dtype than the expression declares "
                     "(zeros_like(a, dtype=int32) comes back as float64)")
-    if n < 4:
-        raise AnalysisError(f"only {n} array-creating emissions found (floor 4)")
+    if n < 2:
+        raise AnalysisError(f"only {n} array-creating emissions found (floor 2)")
 
 
 SPEC = Spec(
     prop="C14",
     rules=[r_namespace, r_tables, r_consume, r_args, r_unsupported, r_operator_inventory, r_intclass, r_creator_dtype],
-    floors={"R14-NAMESPACE": 40, "R14-TABLES": 50, "R14-CONSUME": 20, "R14-ARGS": 12,
-            "R14-UNSUPPORTED": 6},
+    floors={"R14-NAMESPACE": 31, "R14-TABLES": 48, "R14-CONSUME": 20, "R14-ARGS": 9,
+            "R14-UNSUPPORTED": 5},
     explanation=(
         "R14-NAMESPACE: the set of attribute names the generator can emit on the "
         "array module (literals, values of the emitter tables, renamed and plain "
